@@ -579,6 +579,9 @@ inductive Op
   | add (silent : Bool) (src dst : GName)
   | move (silent : Bool) (src dst : GName)
   | copy (silent : Bool) (src dst : GName)
+  /-- an operation the implementation cannot carry out, whatever the dataset: `CREATE` (`evalCreate` ends in
+      `raise Exception("Create not implemented!")` on every path), `LOAD` of a source that cannot be read -/
+  | fail (silent : Bool)
 
 def GTerm.isDflt : GTerm → Bool
   | .dflt => true
@@ -596,15 +599,37 @@ def Op.needsDataset : Op → Bool
     (match u.ins with | some t => t.any (fun x => !x.2.isDflt) | none => false)
   | .clear _ t | .drop _ t => (match t with | .graph _ => true | _ => false)
   | .add _ a b | .move _ a b | .copy _ a b => a.isSome || b.isSome
+  | .fail _ => false
+
+def Op.isFail : Op → Bool
+  | .fail _ => true
+  | _ => false
+
+/-- `evalLoad` with `SPARQL_LOAD_GRAPHS` on: `ctx.load(source, default=True)` / `ctx.load(source, into=g)` parses the
+    document into the real default graph / into `get_context(g)`.  A document that can be read (`some ts`: its triples,
+    blank nodes as labels — the parser mints a new node per label and per LOAD) is added exactly like INSERT DATA of
+    those triples into that graph; a source that cannot be read (`none`) raises. -/
+def loadQuads (ts : List TTpl) (into : GName) : List QTpl :=
+  ts.map (fun t => (t, match into with | none => GTerm.dflt | some g => GTerm.name g))
+
+def Op.load (single silent : Bool) (doc : Option (List TTpl)) (into : GName) : Op :=
+  match doc with
+  | none => .fail silent
+  | some ts =>
+    -- `INTO GRAPH g` on a plain Graph (`single`): `ctx.dataset` raises before anything is read; LOAD has a SILENT flag
+    if single && into.isSome then .fail silent else .insertData (loadQuads ts into)
+
+/-- `evalCreate`: every path raises -/
+def Op.create (silent : Bool) (_g : Nat) : Op := .fail silent
 
 def Op.silent : Op → Bool
-  | .clear s _ | .drop s _ | .add s _ _ | .move s _ _ | .copy s _ _ => s
+  | .clear s _ | .drop s _ | .add s _ _ | .move s _ _ | .copy s _ _ | .fail s => s
   | _ => false
 
 /-- one operation on a dataset; `none` = the operation raised (state untouched in the modelled domain:
     the correspondence never sends a plain Graph an operation that mixes default-graph and named parts) -/
 def evalOp (c : Cfg) (op : Op) (s : St) : Option St :=
-  if c.single && op.needsDataset then none
+  if (c.single && op.needsDataset) || op.isFail then none
   else some (match op with
     | .insertData q => evalInsertData q s
     | .deleteData q => evalDeleteData q s
@@ -614,7 +639,8 @@ def evalOp (c : Cfg) (op : Op) (s : St) : Option St :=
     | .drop _ t => evalDrop c t s
     | .add _ a b => evalAdd a b s
     | .move _ a b => evalMove a b s
-    | .copy _ a b => evalCopy a b s)
+    | .copy _ a b => evalCopy a b s
+    | .fail _ => s)
 
 /-- state of a running request: `failed` = an operation raised and was not SILENT -/
 structure Run where
@@ -755,7 +781,7 @@ def WOp.asWritten : WOp → Op
 
 /-- one written operation, evaluated through the translated structure -/
 def evalWOp (c : Cfg) (w : WOp) (s : St) : Option St :=
-  if c.single && w.toOp.needsDataset then none
+  if (c.single && w.toOp.needsDataset) || w.toOp.isFail then none
   else match w with
     | .insertData q => some (insertTranslated (translateQuads q) none s [])
     | .deleteData q => some (deleteTranslated (translateQuads q) none s [])
